@@ -526,8 +526,12 @@ def c14_cases(tier, seed):
         mode = rng.choice(["emacs", "emacs", "vi"])
         ct = rng.choice(["circular", "circular", "list"])
         cands = rng.sample(CAND_POOL, rng.choice([0, 1, 2, 3, 4, 5]))
-        if rng.random() < 0.08:
+        r0 = rng.random()
+        if r0 < 0.08:
             cands = ["c%02d" % i for i in range(rng.choice([101, 105]))]     # above the prompt limit
+        elif r0 < 0.33:
+            # unfiltered script: candidates that do not extend the word (shorter, unrelated, empty)
+            cands = ["*"] + rng.sample(CAND_POOL + ["w", "ab c"], rng.choice([1, 2, 2, 3, 4]))
         keys = []
         for _ in range(rng.randint(2, 12)):
             r = rng.random()
@@ -733,6 +737,8 @@ def c05_cases(tier, seed):
         mode = rng.choice(["emacs", "emacs", "vi"])
         hist = [rng.choice(HIST_POOL) for _ in range(rng.choice([0, 1, 2, 3]))]
         cands = rng.sample(CAND_POOL, rng.choice([0, 2, 3])) or None
+        if cands and rng.random() < 0.3:
+            cands = ["*"] + cands             # unfiltered script: candidates offered whatever the word is
         ln = rng.randint(5, 30)
         base = gen_emacs(rng, ln, bool(hist), extra=("Tab", "C-r", "C-g", "Esc")) if mode == "emacs" else gen_vi(rng, ln, bool(hist))
         keys = []
